@@ -571,6 +571,13 @@ impl<'a> Printer<'a> {
                         out.push(c);
                     }
                 },
+                Spell::HexLatin => {
+                    if (c as u32) < 0x100 {
+                        out.push_str(&format!("\\x{:02x}", c as u32));
+                    } else {
+                        out.push(c);
+                    }
+                },
             }
         }
     }
@@ -608,19 +615,46 @@ impl<'a> Printer<'a> {
             },
             EK::Interp(parts) => {
                 let mut s = String::from("$\"");
+                // Per slot: where its text starts inside the token (lines
+                // down, characters into that line) and the positions of its
+                // nodes relative to the slot text.
+                let mut subs: Vec<(u32, u32, Printed)> = vec![];
                 for p in parts {
                     match p {
                         StrPart::Text(t) => self.str_text(t, &mut s),
                         StrPart::Slot(e) => {
                             let sub = print_expr_canonical(e, self.first.len());
                             s.push_str("${");
+                            let dl = s.matches('\n').count() as u32;
+                            let dc = s.rsplit('\n').next().unwrap_or("").chars().count() as u32;
                             s.push_str(&sub.src);
                             s.push('}');
+                            subs.push((dl, dc, sub));
                         },
                     }
                 }
                 s.push('"');
                 self.tok(&s);
+                // True positions of the nodes inside the slots.
+                let start = self.toks.last().unwrap().pos;
+                for (dl, dc, sub) in subs {
+                    let (sl, sc) = if dl == 0 { (start.line, start.col + dc) } else { (start.line + dl, dc + 1) };
+                    let map = |p: Pos| if p.line == 1 { Pos{line: sl, col: sc + p.col - 1} } else { Pos{line: sl + p.line - 1, col: p.col} };
+                    for (id, p) in sub.first.iter().enumerate() {
+                        if id < self.first.len() && self.first[id].is_none() {
+                            if let Some(p) = p {
+                                self.first[id] = Some(map(*p));
+                            }
+                        }
+                    }
+                    for (id, p) in sub.op.iter().enumerate() {
+                        if id < self.op.len() && self.op[id].is_none() {
+                            if let Some(p) = p {
+                                self.op[id] = Some(map(*p));
+                            }
+                        }
+                    }
+                }
             },
             EK::Var(n) => self.tok(n),
             EK::Bin(op, l, r) => {
